@@ -27,7 +27,10 @@ type gCase struct {
 	Class  string `json:"class"`
 	ErrMsg string `json:"err,omitempty"`
 	NoCoq  bool   `json:"no_coq,omitempty"`
-	Huge   bool   `json:"huge,omitempty"` // the implementation died or over-allocated: the model must say DHuge
+	Huge   bool   `json:"huge,omitempty"` // the implementation died or over-allocated: no model outcome explains that (always a mismatch)
+	// Kind "slice": Entry is "slice-int8" / "slice-uint8" (codec.Reader.ReadSliceInt8/Uint8 called directly), Bytes =
+	// 4-byte big-endian length argument followed by the reader's content
+	Entry string `json:"entry,omitempty"`
 }
 
 func gEncode(s tarsStruct) ([]byte, error) {
@@ -60,6 +63,9 @@ func gCoq(c *gCase) string {
 		return fmt.Sprintf("GHuge %d%%nat %s", c.Sid, hx(c.Bytes))
 	}
 	switch c.Kind {
+	case "slice":
+		n := int32(uint32(c.Bytes[0])<<24 | uint32(c.Bytes[1])<<16 | uint32(c.Bytes[2])<<8 | uint32(c.Bytes[3]))
+		return fmt.Sprintf("GSlice (%d)%%Z %s %s", n, hx(c.Bytes[4:]), c.Obs)
 	case "enc":
 		return fmt.Sprintf("GEnc (%d%%nat, %s, %s)", c.Sid, hx(c.Bytes), c.Obs)
 	case "reuse":
